@@ -109,6 +109,31 @@ def depthList : List Tree → Nat
   | t :: ts => max (depthTree t) (depthList ts)
 end
 
+/-! ### well-formed trees the round trip is claimed for -/
+
+/-- attribute names of an element are pairwise different (XML well-formedness) -/
+def keysDistinct : List (QN × Str) → Bool
+  | [] => true
+  | (k, _) :: r => !r.any (·.1 = k) && keysDistinct r
+
+/-- an attribute the generic model keeps verbatim: the value is not rewritten by
+`ParserUtils.parse_any_attribute` (it does not look like `p:local` with `p` a declared prefix),
+it is not `xsi:nil` (popped by `flush_start` when the element has text, and
+`WildcardNode.bind` turns missing text into `""`), and it is not a Clark name the writer
+re-encodes as a prefixed name (`is_xsi_type`) -/
+def attrOK (isDatatype : Str → Bool) (n : NsMap) (kv : QN × Str) : Bool :=
+  parseAnyAttribute kv.2 n = kv.2 && kv.1 ≠ xsiNil &&
+  !(kv.2.head? = some '{' && (kv.1 = xsiType || isDatatype kv.2))
+
+mutual
+def treeOK (isDatatype : Str → Bool) : Tree → Bool
+  | .node q a n _ c _ =>
+    !q.isEmpty && keysDistinct a && a.all (attrOK isDatatype n) && treeOKList isDatatype c
+def treeOKList (isDatatype : Str → Bool) : List Tree → Bool
+  | [] => true
+  | t :: ts => treeOK isDatatype t && treeOKList isDatatype ts
+end
+
 /-! ### the generic pipeline -/
 
 /-- the value a `WildcardNode(var)` leaves for the subtree `t` -/
